@@ -45,6 +45,16 @@ func (e eagrEv) String() string {
 		return fmt.Sprintf("slow-payload(%s %s held for %d timeouts everywhere)", e.M, e.D, e.Idx)
 	case "offline":
 		return fmt.Sprintf("offline(n%d for %d delivery sub-phases)", e.N, e.Idx)
+	case "down":
+		return fmt.Sprintf("down(n%d stops for good)", e.N)
+	case "fate":
+		switch e.V {
+		case "late":
+			return fmt.Sprintf("votes(r%d p%d s%d) arrive %d timeouts late everywhere", e.R, e.P, e.S, e.Idx)
+		case "split":
+			return fmt.Sprintf("votes(r%d p%d s%d) reach n%d now, nodes %05b two timeouts later, the rest never", e.R, e.P, e.S, e.N, e.Idx)
+		}
+		return fmt.Sprintf("votes(r%d p%d s%d) reach everybody now except n%d (late=%d)", e.R, e.P, e.S, e.N, e.Idx)
 	case "cut":
 		if e.V == "only" {
 			return fmt.Sprintf("cut(votes of period %d step %d reach only n%d)", e.P, e.S, e.N)
@@ -139,6 +149,60 @@ func (s *eagrSys) apply(e eagrEv, out *eagrOut) error {
 		s.subStart = false
 		s.fixBarrier()
 		return nil
+	case "fate":
+		f := eagrFate{round: basics.Round(e.R), period: period(e.P), step: step(e.S)}
+		kind := eagrDevFateSplit
+		switch e.V {
+		case "late": // everybody late by Idx timeouts
+			kind = eagrDevFateSoftLate
+			for j := range s.nodes {
+				f.dst[j] = int8(e.Idx)
+			}
+		case "split": // node N now; nodes in mask Idx two timeouts later; the rest never
+			for j := range s.nodes {
+				switch {
+				case j == e.N:
+				case e.Idx&(1<<uint(j)) != 0:
+					f.dst[j] = 2
+				default:
+					f.dst[j] = -1
+				}
+			}
+		case "miss": // everybody now except node N: two timeouts later (Idx=1) or never (Idx=0)
+			kind = eagrDevFateMiss
+			f.dst[e.N] = -1
+			if e.Idx == 1 {
+				f.dst[e.N] = 2
+			}
+		}
+		s.fates = append(append([]eagrFate(nil), s.fates...), f)
+		s.devs[kind]++
+		s.subStart = false
+		// votes of the group already in flight follow the rule too
+		var fs []eagrFlight
+		for _, x := range s.flight {
+			if f.matches(x.m) && !x.parked {
+				switch k := f.dst[x.dst]; {
+				case k < 0:
+					continue
+				case k > 0:
+					x.parked, x.ticks = true, k
+				}
+			}
+			fs = append(fs, x)
+		}
+		s.flight = fs
+		s.fixBarrier()
+		return nil
+	case "down":
+		n := s.own(e.N)
+		n.down, n.passive = true, true
+		n.loop, n.ver = nil, nil
+		s.devs[eagrDevDown]++
+		s.subStart = false
+		s.purge()
+		s.fixBarrier()
+		return nil
 	case "offline":
 		s.offNode, s.offLeft = e.N, e.Idx
 		s.devs[eagrDevOff]++
@@ -216,7 +280,26 @@ func (s *eagrSys) apply(e eagrEv, out *eagrOut) error {
 		if T > s.now {
 			s.now = T
 		}
-		s.unpark()
+		regular := false
+		for _, n := range s.nodes {
+			if r, _ := n.timers(); !n.passive && r <= s.now {
+				regular = true
+			}
+		}
+		if regular {
+			s.unpark() // held messages sit out regular timeouts only (fast-recovery timers do not count)
+			for j, n := range s.nodes {
+				if n.passive {
+					continue
+				}
+				for _, o := range s.nodes {
+					if _, ok := o.led.entries[n.led.next]; ok && o != n && n.behind < 100 {
+						s.own(j).behind++
+						break
+					}
+				}
+			}
+		}
 		for j := range s.nodes {
 			if s.nodes[j].passive {
 				continue
@@ -281,7 +364,9 @@ func (s *eagrSys) apply(e eagrEv, out *eagrOut) error {
 		if ent == nil {
 			return fmt.Errorf("%v: nobody committed round %d", e, n.led.next)
 		}
-		s.own(e.N).catchup(s, ent, out)
+		nn := s.own(e.N)
+		nn.behind = 0
+		nn.catchup(s, ent, out)
 	case "byz":
 		pv, ok := s.valueByName(e.V)
 		if !ok {
@@ -607,6 +692,83 @@ func (b *eagrBFS) enabled(s *eagrSys) []eagrEv {
 				}
 			}
 		}
+		fateEvs := func() {
+			if !s.subStart || !(can(eagrDevFateSoftLate) || can(eagrDevFateSplit) || can(eagrDevFateMiss)) {
+				return
+			}
+			type rps struct {
+				r basics.Round
+				p period
+				s step
+			}
+			seen := map[rps]bool{}
+			var order []rps
+			for _, f := range s.flight {
+				if f.m.tag == protocol.AgreementVoteTag && !f.parked && f.m.vote.R.Step >= soft && f.m.vote.R.Step <= next {
+					k := rps{f.m.vote.R.Round, f.m.vote.R.Period, f.m.vote.R.Step}
+					dup := false
+					for _, x := range s.fates {
+						dup = dup || (x.round == k.r && x.period == k.p && x.step == k.s)
+					}
+					if !seen[k] && !dup {
+						seen[k] = true
+						order = append(order, k)
+					}
+				}
+			}
+			sort.Slice(order, func(i, j int) bool {
+				a, c := order[i], order[j]
+				return a.r < c.r || (a.r == c.r && (a.p < c.p || (a.p == c.p && a.s < c.s)))
+			})
+			nn := len(s.nodes)
+			for _, k := range order {
+				base := eagrEv{K: "fate", R: uint64(k.r), P: uint64(k.p), S: uint64(k.s)}
+				if k.s == soft && can(eagrDevFateSoftLate) {
+					for d := 1; d <= 2; d++ {
+						e := base
+						e.V, e.Idx = "late", d
+						evs = append(evs, e)
+					}
+				}
+				if k.s == next && can(eagrDevFateSplit) {
+					for j, n := range s.nodes {
+						if n.passive {
+							continue
+						}
+						for mask := 0; mask < 1<<uint(nn); mask++ {
+							if mask&(1<<uint(j)) != 0 {
+								continue
+							}
+							e := base
+							e.V, e.N, e.Idx = "split", j, mask
+							evs = append(evs, e)
+						}
+					}
+				}
+				if k.s == cert && can(eagrDevFateMiss) {
+					for j, n := range s.nodes {
+						if n.passive {
+							continue
+						}
+						for late := 0; late <= 1; late++ {
+							e := base
+							e.V, e.N, e.Idx = "miss", j, late
+							evs = append(evs, e)
+						}
+					}
+				}
+			}
+		}
+		downEvs := func() {
+			if !s.subStart || !can(eagrDevDown) {
+				return
+			}
+			for j, n := range s.nodes {
+				if !n.passive {
+					evs = append(evs, eagrEv{K: "down", N: j})
+				}
+			}
+		}
 		offEvs := func() {
 			if !s.subStart || s.offLeft > 0 || !can(eagrDevOff) {
 				return
@@ -642,6 +804,8 @@ func (b *eagrBFS) enabled(s *eagrSys) []eagrEv {
 			byzEvs()
 			cutEvs()
 			offEvs()
+			fateEvs()
+			downEvs()
 			return evs
 		}
 		if b.cfg.virtualTime {
@@ -649,6 +813,9 @@ func (b *eagrBFS) enabled(s *eagrSys) []eagrEv {
 			// fetches the block (catch-up service / EnsureDigest), which interrupts the round
 			for j, n := range s.nodes {
 				if n.passive {
+					continue
+				}
+				if n.behind < b.cfg.catchupDelay {
 					continue
 				}
 				for _, o := range s.nodes {
@@ -665,6 +832,7 @@ func (b *eagrBFS) enabled(s *eagrSys) []eagrEv {
 				evs = append(evs, eagrEv{K: "vtick"})
 			}
 			crashEvs()
+			downEvs()
 			return evs
 		}
 		mask := 0
@@ -1185,6 +1353,14 @@ func eagrHonest3W(name string, proposers, noProp []bool, maxRound basics.Round, 
 	env := eagrGetEnvStakes([]uint64{10, 45, 45}, 70)
 	cfg := &eagrCfg{env: env, nNodes: 3, atomicVerify: true, atomicLoop: true, flightSet: true,
 		maxRound: maxRound, maxPeriod: maxPeriod, proposers: proposers, noProposalTo: noProp}
+	return &eagrBFS{name: name, cfg: cfg, maxStep: next}
+}
+
+// eagrHonest5 builds a configuration of 5 honest single-account nodes, threshold 4 of 5.
+func eagrHonest5(name string, proposers []bool, maxRound basics.Round, maxPeriod period) *eagrBFS {
+	env := eagrGetEnv(5, 4)
+	cfg := &eagrCfg{env: env, nNodes: 5, atomicVerify: true, atomicLoop: true, flightSet: true,
+		maxRound: maxRound, maxPeriod: maxPeriod, proposers: proposers}
 	return &eagrBFS{name: name, cfg: cfg, maxStep: next}
 }
 
